@@ -33,6 +33,7 @@ import (
 	"net"
 	"net/http"
 	"os"
+	"runtime/debug"
 	"sort"
 	"sync"
 	"sync/atomic"
@@ -62,7 +63,7 @@ type Profile struct {
 	Sub     bool   `json:"sub"`      // SUBSCRIBE (QoS 0) to the own topic
 	Pubs    []Pub  `json:"pubs"`
 	Ping    bool   `json:"ping"`
-	NoDisc  bool   `json:"no_disc"`  // the stream ends without DISCONNECT (the client just closes the connection)
+	NoDisc  bool   `json:"no_disc"` // the stream ends without DISCONNECT (the client just closes the connection)
 }
 
 type Pkt struct {
@@ -264,8 +265,8 @@ func (r *rx) counts() (int, int, bool) {
 }
 
 type patience struct {
-	soft   time.Duration                  // no progress for this long => consult the canary
-	canary func() (time.Duration, error)  // nil: the soft timeout is final (used by the twin itself)
+	soft   time.Duration                 // no progress for this long => consult the canary
+	canary func() (time.Duration, error) // nil: the soft timeout is final (used by the twin itself)
 }
 
 // wait until the lanes hold at least (nr, nd) packets (or, with wantClose, until the peer closed).
@@ -447,8 +448,12 @@ func twin(st *Stream, stepwise bool) (lanes, time.Duration, error) {
 	r.mu.Lock()
 	defer r.mu.Unlock()
 	if len(r.lanes[0]) != nr || len(r.lanes[1]) != nd || r.parsed != len(r.raw) {
-		return out, 0, fmt.Errorf("twin: %d+%d answers (+%d stray bytes), the driver expects %d+%d", len(r.lanes[0]), len(r.lanes[1]),
-			len(r.raw)-r.parsed, nr, nd)
+		var sizes []int
+		for _, d := range r.lanes[1] {
+			sizes = append(sizes, len(d))
+		}
+		return out, 0, fmt.Errorf("twin: %d+%d answers (+%d stray bytes), the driver expects %d+%d; sizes of the deliveries: %v", len(r.lanes[0]),
+			len(r.lanes[1]), len(r.raw)-r.parsed, nr, nd, sizes)
 	}
 	out = r.lanes
 	return out, time.Since(t0), nil
@@ -469,19 +474,21 @@ type Line struct {
 }
 
 type Result struct {
-	OK        bool   `json:"ok"`
-	Kind      string `json:"kind,omitempty"`
-	Detail    string `json:"detail,omitempty"`
-	Explained bool   `json:"explained_by_deviation"`
-	Strict    bool   `json:"strict"` // no packet shares the last message with DISCONNECT
-	N         int    `json:"n"`
-	Chunks    int    `json:"chunks"`
-	Demanded  string `json:"demanded,omitempty"`
-	Observed  string `json:"observed,omitempty"`
-	Confirmed bool   `json:"confirmed"`
-	Sig       string `json:"-"`
-	line      []byte
-	ln        *Line
+	OK          bool   `json:"ok"`
+	Kind        string `json:"kind,omitempty"`
+	Detail      string `json:"detail,omitempty"`
+	Explained   bool   `json:"explained_by_deviation"`
+	Strict      bool   `json:"strict"` // no packet shares the last message with DISCONNECT
+	N           int    `json:"n"`
+	Chunks      int    `json:"chunks"`
+	Demanded    string `json:"demanded,omitempty"`
+	Observed    string `json:"observed,omitempty"`
+	Confirmed   bool   `json:"confirmed"`
+	DropSent    bool   `json:"-"` // the deviation model loses a byte among the bytes that were sent
+	dupDelivery bool
+	Sig         string `json:"-"`
+	line        []byte
+	ln          *Line
 }
 
 var (
@@ -491,6 +498,17 @@ var (
 	patMs    = flag.Int("patient", 8000, "the same for the confirmation runs")
 	lingerMs = flag.Int("linger", 250, "ms to wait for answers that may legitimately be lost (packets sharing a message with DISCONNECT)")
 )
+
+var (
+	anomMu    sync.Mutex
+	anomalies []string
+)
+
+func twinAnomaly(what string) {
+	anomMu.Lock()
+	anomalies = append(anomalies, what)
+	anomMu.Unlock()
+}
 
 func ids() (tw, wsid, canary, topic string) {
 	k := atomic.AddInt64(&seq, 1)
@@ -507,6 +525,37 @@ func firstBad(obs, ref [][]byte) int {
 		return len(ref)
 	}
 	return 1 << 30
+}
+
+// subseq checks obs against ref: the first `strict` packets must be equal one by one, later ones may skip reference
+// packets.  It returns the index of the first observed packet that does not fit (-1: none) and the reference position.
+func subseq(obs, ref [][]byte, strict int) (int, int) {
+	ptr := 0
+	for k, o := range obs {
+		if k < strict {
+			if ptr < len(ref) && bytes.Equal(o, ref[ptr]) {
+				ptr++
+				continue
+			}
+			return k, ptr
+		}
+		idx := ptr
+		for idx < len(ref) && !bytes.Equal(o, ref[idx]) {
+			idx++
+		}
+		if idx == len(ref) {
+			return k, ptr
+		}
+		ptr = idx + 1
+	}
+	return -1, ptr
+}
+
+func segText(seg []int) string {
+	if len(seg) <= 8 {
+		return fmt.Sprint(seg)
+	}
+	return fmt.Sprint(seg[:4]) + ".." + fmt.Sprint(seg[len(seg)-2:])
 }
 
 func snip(b []byte) string {
@@ -532,16 +581,46 @@ func diffAt(a, b []byte) int {
 	return min(len(a), len(b))
 }
 
+// runScenario runs the scenario; a run that only differs from the reference by a repeated delivery (an anomaly of the
+// broker's session queue that the TCP twin shows as well, about once in 10^5 exchanges) is noted and repeated.
 func runScenario(ln *Line, raw []byte, soft time.Duration) *Result {
+	for try := 0; ; try++ {
+		res := runOnce(ln, raw, soft)
+		if res.OK || !res.dupDelivery || try == 2 {
+			return res
+		}
+		twinAnomaly("websocket run of " + ln.Stream + ": a delivery arrived twice (" + res.Detail + "); scenario repeated")
+	}
+}
+
+// withoutRepeats drops deliveries that repeat their predecessor (DUP flag ignored)
+func withoutRepeats(l [][]byte) [][]byte {
+	var out [][]byte
+	for i, p := range l {
+		if i > 0 && len(p) == len(l[i-1]) && p[0]&^0x08 == l[i-1][0]&^0x08 && bytes.Equal(p[1:], l[i-1][1:]) {
+			continue
+		}
+		out = append(out, p)
+	}
+	return out
+}
+
+func runOnce(ln *Line, raw []byte, soft time.Duration) *Result {
 	p := profiles[ln.Stream]
 	if p == nil {
 		machinery("unknown stream " + ln.Stream)
 	}
-	tw, wsid, canaryID, topic := ids()
+	tw, wsid, _, topic := ids()
 	res := &Result{line: raw, ln: ln, Chunks: len(ln.Seg)}
 	ref, _, err := twin(build(p, tw, topic), false)
-	if err != nil {
-		machinery("TCP twin (reference) failed: " + err.Error())
+	for try := 0; err != nil; try++ {
+		// the reference itself misbehaved (not a WebSocket matter): note it, take a fresh client id and topic
+		twinAnomaly(ln.Stream + ": " + err.Error())
+		if try == 2 {
+			machinery("TCP twin (reference) failed three times in a row: " + err.Error())
+		}
+		tw, wsid, _, topic = ids()
+		ref, _, err = twin(build(p, tw, topic), false)
 	}
 	st := build(p, wsid, topic)
 	res.N = len(st.Bytes)
@@ -552,8 +631,14 @@ func runScenario(ln *Line, raw []byte, soft time.Duration) *Result {
 	if sum != len(st.Bytes) {
 		machinery(fmt.Sprintf("segmentation of %d bytes for stream %s of %d bytes", sum, ln.Stream, len(st.Bytes)))
 	}
-	pt := patience{soft: soft, canary: func() (time.Duration, error) {
-		_, d, err := twin(build(p, canaryID, topic+"k"), false)
+	pt := patience{soft: soft, canary: func() (d time.Duration, err error) {
+		for try := 0; try < 3; try++ {
+			_, _, cid, ctopic := ids() // fresh: a canary must not take over anybody's session
+			if _, d, err = twin(build(p, cid, ctopic), false); err == nil {
+				return d, nil
+			}
+			twinAnomaly("canary " + ln.Stream + ": " + err.Error())
+		}
 		return d, err
 	}}
 
@@ -609,7 +694,7 @@ func runScenario(ln *Line, raw []byte, soft time.Duration) *Result {
 	}
 	off := 0
 	var sr, sd int // strictly owed
-	status := "ok"
+	status, writeErr := "ok", ""
 	res.Strict = true
 	for i, n := range ln.Seg {
 		if i == final && (hasDisc || ln.Text > 0) {
@@ -629,14 +714,16 @@ func runScenario(ln *Line, raw []byte, soft time.Duration) *Result {
 			if i > final && hasDisc {
 				break
 			}
-			// the broker went away while we were still sending
+			// the broker went away while we were still sending: everything owed for the bytes it got is still owed
 			status = "closed"
+			sr, sd, _ = owed(off)
+			writeErr = err.Error()
 			break
+		}
+		if ln.Text > 0 && i == final {
+			break // `off` stays at the start of the text message: its bytes do not count as sent
 		}
 		off += n
-		if ln.Text > 0 && i == final {
-			break
-		}
 	}
 	closeStatus := ""
 	if status == "ok" {
@@ -658,6 +745,7 @@ func runScenario(ln *Line, raw []byte, soft time.Duration) *Result {
 	tail := append([]byte(nil), r.raw[r.parsed:]...)
 	nonBin := r.nonBinary
 	closeErr := r.closeErr
+	gone := r.closed || status == "closed"
 	r.mu.Unlock()
 
 	fb := [2]int{firstBad(obs[0], ref[0]), firstBad(obs[1], ref[1])}
@@ -667,72 +755,76 @@ func runScenario(ln *Line, raw []byte, soft time.Duration) *Result {
 			res.Kind, res.Detail = kind, detail
 		}
 	}
-	mismatch := func(lane, i int) {
-		res.Demanded = fmt.Sprintf("%s[%d] = %s", name[lane], i, describeLane(ref[lane], i))
+	mismatch := func(lane, i, at int) {
+		res.Demanded = fmt.Sprintf("%s[%d] = %s", name[lane], at, describeLane(ref[lane], at))
 		res.Observed = fmt.Sprintf("%s[%d] = %s", name[lane], i, describeLane(obs[lane], i))
-		if i < len(obs[lane]) && i < len(ref[lane]) {
-			res.Observed += fmt.Sprintf(" (first difference at byte %d of the packet)", diffAt(obs[lane][i], ref[lane][i]))
+		if i < len(obs[lane]) && at < len(ref[lane]) {
+			res.Observed += fmt.Sprintf(" (first difference at byte %d of the packet)", diffAt(obs[lane][i], ref[lane][at]))
 		}
 	}
 	if nonBin > 0 {
 		set("nonbinary", fmt.Sprintf("%d messages from the broker were not binary messages", nonBin))
 	}
-	if ln.Text > 0 {
-		// nothing but the answers owed before the text message may ever arrive, and the connection must end
-		want := [2]int{sr, sd}
-		for lane := 0; lane < 2; lane++ {
-			if fb[lane] < want[lane] {
-				set("mismatch", fmt.Sprintf("before the text message: %s[%d] wrong or missing (%s)", name[lane], fb[lane], status))
-				mismatch(lane, fb[lane])
-			} else if len(obs[lane]) > want[lane] {
-				set("text-accepted", fmt.Sprintf("the broker answered the content of a text message: %s[%d] = %s", name[lane], want[lane],
-					snip(obs[lane][want[lane]])))
-			}
+	want := [2]int{sr, sd}
+	if writeErr != "" {
+		// the twin was not disconnected, so this is a divergence even if nothing was owed yet
+		set("closed-early", fmt.Sprintf("the broker closed the connection after %d of %d bytes (%s)", off, len(st.Bytes), writeErr))
+		res.Demanded, res.Observed = "the connection stays open until the client has sent the stream", "closed by the broker"
+	}
+	for lane := 0; lane < 2; lane++ {
+		// the first want[lane] packets are owed exactly; what follows (answers to packets that share the last message with
+		// DISCONNECT) may have gaps - gmqtt drops an arbitrary subset of what it still has to write - but nothing may be wrong
+		bad, at := subseq(obs[lane], ref[lane], want[lane])
+		switch {
+		case bad >= 0 && bad < want[lane]:
+			set("mismatch", fmt.Sprintf("%s[%d], owed for the bytes sent so far, differs from the TCP twin", name[lane], bad))
+			mismatch(lane, bad, at)
+		case len(obs[lane]) < want[lane]:
+			k := map[string]string{"stalled": "silent", "closed": "closed-early", "ok": "missing"}[status]
+			set(k, fmt.Sprintf("%s[%d], owed for the bytes sent so far, did not arrive (wait: %s %s)", name[lane], len(obs[lane]), status, closeErr))
+			mismatch(lane, len(obs[lane]), len(obs[lane]))
+		case bad >= 0 && ln.Text > 0:
+			set("text-accepted", fmt.Sprintf("the broker answered the content of a text message: %s[%d] = %s", name[lane], bad, snip(obs[lane][bad])))
+		case bad >= 0:
+			set("mismatch", fmt.Sprintf("%s[%d] is not what the TCP twin received (next or later)", name[lane], bad))
+			mismatch(lane, bad, at)
 		}
+	}
+	if ln.Text > 0 {
 		if status == "ok" && closeStatus != "ok" {
 			set("text-no-close", "the connection stayed open after a text message")
 		}
 		if stray > 0 {
 			set("text-accepted", fmt.Sprintf("%d bytes after the text message", stray))
 		}
-	} else {
-		want := [2]int{sr, sd}
-		for lane := 0; lane < 2; lane++ {
-			if fb[lane] < want[lane] {
-				k := "mismatch"
-				if fb[lane] >= len(obs[lane]) {
-					k = map[string]string{"stalled": "silent", "closed": "closed-early", "ok": "missing"}[status]
-				}
-				set(k, fmt.Sprintf("%s[%d] owed before the last message is wrong or missing (wait: %s %s)", name[lane], fb[lane], status, closeErr))
-				mismatch(lane, fb[lane])
-			}
-		}
-		for lane := 0; lane < 2; lane++ {
-			if fb[lane] < len(obs[lane]) {
-				// something arrived that differs from the reference (or is surplus)
-				set("mismatch", fmt.Sprintf("%s[%d] differs from the TCP twin", name[lane], fb[lane]))
-				mismatch(lane, fb[lane])
-			}
-		}
-		if stray > 0 {
-			// an incomplete packet at the end: only acceptable as the beginning of a packet whose loss is tolerated
-			okPrefix := false
-			for lane := 0; lane < 2 && !res.Strict; lane++ {
-				if i := len(obs[lane]); i < len(ref[lane]) && bytes.HasPrefix(ref[lane][i], tail) {
+	} else if stray > 0 {
+		// an incomplete packet at the end: only acceptable as the beginning of a packet whose loss is tolerated
+		okPrefix := false
+		for lane := 0; lane < 2 && !res.Strict; lane++ {
+			for i := want[lane]; i < len(ref[lane]); i++ {
+				if bytes.HasPrefix(ref[lane][i], tail) {
 					okPrefix = true
 				}
 			}
-			if !okPrefix {
-				set("mismatch", fmt.Sprintf("%d stray bytes that are not a complete packet at the end of the broker's output: %s", stray, snip(tail)))
-			}
+		}
+		if !okPrefix {
+			set("mismatch", fmt.Sprintf("%d stray bytes that are not a complete packet at the end of the broker's output: %s", stray, snip(tail)))
 		}
 	}
+	res.DropSent = ln.Drop >= 0 && ln.Drop < off
 	if res.Kind == "" {
 		res.OK = true
 		return res
 	}
+	if d := withoutRepeats(obs[1]); len(d) < len(obs[1]) && len(withoutRepeats(ref[1])) == len(ref[1]) {
+		if bad, _ := subseq(d, ref[1], min(want[1], len(d))); bad < 0 && firstBad(obs[0], ref[0]) >= len(obs[0]) {
+			res.dupDelivery = true
+		}
+	}
 	// classification: is the divergence what the named deviation DropLastWhenOneLeft predicts for this segmentation?
-	if ln.Drop >= 0 && ln.Text == 0 {
+	// (for a text scenario the prediction counts when the lost byte precedes the text message)
+	unrelated := map[string]bool{"text-accepted": true, "text-no-close": true, "nonbinary": true, "subprotocol": true}[res.Kind]
+	if ln.Drop >= 0 && ln.Drop < off && !unrelated {
 		j := 0
 		for j < len(st.Pk) && st.Pk[j].End() <= ln.Drop {
 			j++
@@ -742,10 +834,9 @@ func runScenario(ln *Line, raw []byte, soft time.Duration) *Result {
 			cr += pk.NResp
 			cd += pk.NDeliv
 		}
-		// answers owed for packets before the lost byte must be right; when the broker closed the connection (it met
-		// garbage after the lost byte) the ones it had not written yet may be missing, but none may be wrong
-		gone := status == "closed"
-		res.Explained = nonBin == 0 && (fb[0] >= cr || gone && fb[0] >= len(obs[0])) && (fb[1] >= cd || gone && fb[1] >= len(obs[1]))
+		// Answers owed for packets before the one that contains the lost byte must be right.  When the broker closed the
+		// connection (it met garbage after the lost byte) it dropped an arbitrary subset of what it had not written yet.
+		res.Explained = gone || fb[0] >= cr && fb[1] >= cd
 	}
 	if res.Explained {
 		res.Sig = "wsconn-read-drops-last-byte-when-one-left"
@@ -765,8 +856,10 @@ func main() {
 	describe := flag.Bool("describe", false, "print the packets of every profile and exit")
 	par := flag.Int("par", 48, "scenarios in flight")
 	raw := flag.Bool("raw", false, "stdin holds plain JSON lines (not TLC string literals)")
+	gcPct := flag.Int("gc", 200, "GOGC")
 	confirmN := flag.Int("confirm", 2, "divergent scenarios per signature that are run again alone")
 	flag.Parse()
+	debug.SetGCPercent(*gcPct) // tc's default (2000) makes this network-bound driver spend its time in page faults
 	var list []*Profile
 	b, err := os.ReadFile(*profPath)
 	if err == nil {
@@ -810,8 +903,10 @@ func main() {
 
 	var mu sync.Mutex
 	var divs []*Result
+	var predictedOKStrictBin int64
 	var predicted, predictedOKStrict, predictedOKTolerant, strictN, textN, bytesSent, msgsSent int64
 	perFam := map[string]int64{}
+	var mispred []json.RawMessage
 	err = tc.Each(os.Stdin, *par, *raw, nil, func(js []byte) {
 		ln := &Line{}
 		if err := json.Unmarshal(js, ln); err != nil {
@@ -830,10 +925,18 @@ func main() {
 		if ln.Text > 0 {
 			atomic.AddInt64(&textN, 1)
 		}
-		if ln.Drop >= 0 {
+		if res.DropSent {
 			atomic.AddInt64(&predicted, 1)
 			if res.OK && res.Strict {
 				atomic.AddInt64(&predictedOKStrict, 1)
+				if ln.Text == 0 {
+					atomic.AddInt64(&predictedOKStrictBin, 1)
+				}
+				mu.Lock()
+				if len(mispred) < 5 && len(js) < 600 && (ln.Text == 0 || len(mispred) < 2) {
+					mispred = append(mispred, json.RawMessage(append([]byte(nil), js...)))
+				}
+				mu.Unlock()
 			} else if res.OK {
 				atomic.AddInt64(&predictedOKTolerant, 1)
 			}
@@ -865,28 +968,46 @@ func main() {
 	})
 	perSig := map[string]int{}
 	bySig := map[string]int64{}
-	unconfirmed := 0
+	var unconfirmed int64
+	var cwg sync.WaitGroup
+	sem := make(chan struct{}, 4)
+	type conf struct {
+		d, again *Result
+	}
+	var confs []*conf
 	for _, d := range divs {
 		bySig[d.Sig]++
 		if perSig[d.Sig] >= *confirmN {
 			continue
 		}
 		perSig[d.Sig]++
-		again := runScenario(d.ln, d.line, time.Duration(*patMs)*time.Millisecond)
+		cf := &conf{d: d}
+		confs = append(confs, cf)
+		cwg.Add(1)
+		go func() {
+			defer cwg.Done()
+			sem <- struct{}{}
+			defer func() { <-sem }()
+			cf.again = runScenario(cf.d.ln, cf.d.line, time.Duration(*patMs)*time.Millisecond)
+		}()
+	}
+	cwg.Wait()
+	for _, cf := range confs { // smallest first
+		d, again := cf.d, cf.again
 		if again.OK || again.Sig != d.Sig {
 			unconfirmed++
-			rep.Div("UNCONFIRMED:"+d.Sig, "a divergence of the bulk run did not repeat when the scenario ran alone: "+d.Kind+": "+d.Detail, d.line,
+			rep.Div("UNCONFIRMED:"+d.Sig, "a divergence of the bulk run did not repeat when the scenario ran again: "+d.Kind+": "+d.Detail, d.line,
 				map[string]interface{}{"bulk": d, "alone": again})
 			continue
 		}
 		again.Confirmed = true
-		what := fmt.Sprintf("stream %s (%d bytes) sent as %d binary messages (family %s): %s; demanded %s, observed %s", d.ln.Stream, again.N,
-			again.Chunks, d.ln.Fam, again.Detail, again.Demanded, again.Observed)
+		what := fmt.Sprintf("stream %s (%d bytes) sent as %d binary messages %s (family %s): %s; demanded %s, observed %s", d.ln.Stream, again.N,
+			again.Chunks, segText(d.ln.Seg), d.ln.Fam, again.Detail, again.Demanded, again.Observed)
 		rep.Div(d.Sig, what, d.line, again)
 	}
 	stop()
 	rep.Summary(map[string]interface{}{"by_signature": bySig, "per_family": perFam, "predicted_drop": predicted,
-		"predicted_drop_but_conformant_strict": predictedOKStrict, "predicted_drop_but_conformant_tolerant": predictedOKTolerant,
+		"predicted_drop_but_conformant_strict": predictedOKStrict, "predicted_drop_but_conformant_strict_binary_only": predictedOKStrictBin, "predicted_drop_but_conformant_tolerant": predictedOKTolerant,
 		"strict": strictN, "text": textN, "bytes": bytesSent, "messages": msgsSent, "unconfirmed": unconfirmed,
-		"diverging_scenarios": len(divs)})
+		"diverging_scenarios": len(divs), "twin_anomalies": anomalies, "predicted_drop_but_conformant_samples": mispred})
 }
